@@ -135,6 +135,7 @@ func main() {
 		nsamples = flag.Int("samples", 3, "decoded samples to keep")
 		watchdog = flag.Int("watchdog", 120, "seconds a single run may take before the worker exits 67")
 		budget   = flag.Int("budget", 400, "shrink budget (executions)")
+		dump     = flag.String("dump", "", "debug: write the tape and trace of every run to <dump>-<idx>.json")
 	)
 	flag.Parse()
 
@@ -230,6 +231,10 @@ func main() {
 			r.Sample["run_index"] = idx
 			o.Samples = append(o.Samples, r.Sample)
 		}
+		if *dump != "" {
+			jb, _ := json.Marshal(map[string]any{"tape": r.T.Record(), "trace": r.Trace, "sample": r.Sample})
+			os.WriteFile(fmt.Sprintf("%s-%d.json", *dump, idx), jb, 0o644)
+		}
 		if *trace {
 			o.TraceHash[fmt.Sprint(idx)] = fmt.Sprintf("%016x/%d", r.EventHash(), r.T.Len())
 		}
@@ -264,7 +269,13 @@ func writeOut(path string, o *output, sigs []byte) {
 }
 
 func runTape(p *core.Property, rf *ReplayFile, tp []uint32, trace bool) *core.Run {
-	r := core.NewRun(tape.Replay(tp), rf.Tier, rf.Index, rf.Seed)
+	tpe := tape.Replay(tp)
+	if len(rf.Tape) == 0 && len(rf.Scenario) == 0 {
+		// a run whose worker process died has no recorded tape: its tape is a
+		// pure function of (seed, property, run index)
+		tpe = tape.New(tape.Mix(rf.Seed, p.ID, rf.Index))
+	}
+	r := core.NewRun(tpe, rf.Tier, rf.Index, rf.Seed)
 	if len(rf.Tape) == 0 && len(rf.Scenario) > 0 {
 		r.Scenario = rf.Scenario
 	}
